@@ -168,9 +168,51 @@ def read_raw(path, columns=("count",)):
     return out
 
 
-def family_kind(inputs):
+def empty_epoch_expected(L, b):
+    """LABELLING ONLY (never decides pass/fail): does a buffer-bounded row partition of a merge whose combined number of
+    records per bin1 row is L contain an epoch without records?  With the documented greedy rule (an epoch is extended
+    while it holds <= b records; a single row with > b records forms its own epoch) an epoch starts on an empty row only at
+    row 0 or right after an over-buffer row, and it stays empty iff the next non-empty row is itself over-buffer."""
+    for r in range(len(L)):
+        if L[r] > b and r > 0 and L[r - 1] == 0:
+            e = r
+            while e > 0 and L[e - 1] == 0:
+                e -= 1
+            if e == 0 or L[e - 1] > b:
+                return True
+    return False
+
+
+def _rowlens(tables, distinct=False):
+    n = max([len(BINS[d["bins"]]) for d in tables] + [1])
+    L = [0] * n
+    seen = set()
+    for d in tables:
+        for p in d["pixels"]:
+            if distinct and (p[0], p[1]) in seen:
+                continue
+            seen.add((p[0], p[1]))
+            L[p[0]] += 1
+    return L
+
+
+def family_kind(inputs, mergebuf=None, nested=False):
+    """kind of input, computed from the input alone; used in failure signatures"""
     if all(not d["pixels"] for d in inputs):
         return "all-inputs-empty"
+    if mergebuf is not None:
+        if nested:
+            a, b, c = inputs
+            if any(all(not d["pixels"] for d in pair) for pair in ((a, b), (b, c))):
+                return "all-inputs-empty"          # one of the inner merges has only empty inputs
+            e = (empty_epoch_expected(_rowlens([a, b]), mergebuf) or empty_epoch_expected(_rowlens([b, c]), mergebuf)
+                 or empty_epoch_expected(_rowlens([a, b, c]), mergebuf)
+                 or empty_epoch_expected([x + y for x, y in zip(_rowlens([a, b], True), _rowlens([c]))], mergebuf)
+                 or empty_epoch_expected([x + y for x, y in zip(_rowlens([a]), _rowlens([b, c], True))], mergebuf))
+        else:
+            e = empty_epoch_expected(_rowlens(inputs), mergebuf)
+        if e:
+            return "merge-epoch-without-records"
     return "k=1" if len(inputs) == 1 else "k>=2"
 
 
@@ -198,7 +240,7 @@ def do_merge(out, paths, mergebuf, columns=None, agg=None, dtypes=None, via="api
     from click.testing import CliRunner
     from cooler.cli import cli
     args = ["merge", out] + list(paths) + ["-c", str(mergebuf)]
-    for col in (columns or []):
+    for col in (columns or (["count"] if (dtypes or agg) else [])):
         props = []
         if dtypes and col in dtypes:
             props.append(f"dtype={dtypes[col]}")
@@ -229,7 +271,7 @@ def run_merge(spec, workdir):
         os.remove(out)
     keys, cols = aggregate(inputs, columns, agg)
     nt = len(keys) > 0
-    kind = family_kind(inputs)
+    kind = family_kind(inputs, spec["mergebuf"])
     cname = "merge" if spec["via"] == "api" else "cli-merge"
     try:
         do_merge(out, paths, spec["mergebuf"], spec["columns"], spec["agg"], None, spec["via"])
@@ -264,7 +306,7 @@ def run_merge(spec, workdir):
     res.append(R("merged-total-and-index-consistent", info_ok, spec,
                  dict(sum=a.get("sum"), nnz=a.get("nnz"), offset=raw["offset"], lens=raw["lens"], mode=a.get("storage-mode")),
                  dict(sum=exp_total, nnz=len(keys), offset=exp_off), nt, f"merged-total-and-index-consistent:{kind}"))
-    return res, (dict(keys=raw["keys"], cols=raw["cols"]) if same else None)
+    return res, dict(keys=raw["keys"], cols=raw["cols"])
 
 
 def run_assoc(spec, workdir):
@@ -275,7 +317,7 @@ def run_assoc(spec, workdir):
     agg = spec["agg"]
     mb = spec["mergebuf"]
     keys, cols = aggregate(inputs, ["count"], agg)
-    kind = family_kind(inputs)
+    kind = family_kind(inputs, mb, nested=True)
     tmp = {k: os.path.join(workdir, f"assoc-{k}.cool") for k in ("ab", "bc", "ab_c", "a_bc", "abc")}
     try:
         do_merge(tmp["ab"], [a, b], mb, ["count"], agg)
@@ -285,7 +327,7 @@ def run_assoc(spec, workdir):
         do_merge(tmp["abc"], [a, b, c], mb, ["count"], agg)
     except Exception as e:
         res.append(R("merge-completes", False, spec, f"{type(e).__name__}: {e}\n{traceback.format_exc(limit=-4)}", "no exception",
-                     True, exc_signature("merge-completes", e, "nested," + kind)))
+                     True, exc_signature("merge-completes", e, kind)))
         return res, None
     tabs = {k: read_raw(tmp[k]) for k in ("ab_c", "a_bc", "abc")}
     got = {k: dict(keys=t["keys"], count=t["cols"]["count"], sum=t["attrs"].get("sum")) for k, t in tabs.items()}
@@ -344,12 +386,28 @@ def run_overflow(spec, workdir):
     return res, None
 
 
+class RunTimeout(Exception):
+    pass
+
+
+def _alarm(signum, frame):
+    raise RunTimeout("run exceeded 60 s")
+
+
 def run_spec(spec, workdir):
+    import signal
+    old = signal.signal(signal.SIGALRM, _alarm)
+    signal.alarm(60)          # a non-terminating partition loop becomes a recorded failure instead of a hang
     try:
         return {"merge": run_merge, "assoc": run_assoc, "incompatible": run_incompatible, "overflow": run_overflow}[spec["kind"]](spec, workdir)
+    except RunTimeout:
+        return [R("merge-completes", False, spec, "no result after 60 s", "termination", True, "merge-completes:timeout")], None
     except Exception as e:   # a bug in the runner itself or an unreadable output
         return [R("runner-internal", False, spec, f"{type(e).__name__}: {e}\n{traceback.format_exc(limit=-5)}", "no exception", True,
                   f"runner-internal:{type(e).__name__}")], None
+    finally:
+        signal.alarm(0)
+        signal.signal(signal.SIGALRM, old)
 
 
 # ---------------------------------------------------------------- multiprocessing (thorough only)
@@ -480,7 +538,7 @@ def main():
         return [inp(named[nm], **kw) for nm in fam]
 
     # --- 1. all families x merge buffers (canonical input order)
-    names = list(NAMED) if T else ["E", "D", "R0", "L", "M"]
+    names = list(NAMED) if T else ["E", "D", "R0", "L", "M", "D2"]
     bufs = [1, 2, 3, 4, 5, 6] if T else [1, 2, 3, 5]
     for fam in families(names, 3):
         for mb in bufs:
@@ -523,7 +581,7 @@ def main():
         triples = [f for f in families(names, 3) if len(f) == 3]
     for fam in triples:
         for aggname in ("sum", "max", "min"):
-            for mb in ([3] if not T else [1, 3, 6]):
+            for mb in ([2, 6] if not T else [1, 2, 3, 6]):
                 specs.append((None, None, dict(kind="assoc", inputs=fam_inputs(fam), agg=None if aggname == "sum" else {"count": aggname},
                                                mergebuf=mb)))
     # --- 6. incompatible inputs, 7. dtype limits
@@ -557,7 +615,7 @@ def main():
             specs.append((("rand", i), "order", dict(s, inputs=B.rng.sample(ins, len(ins)))))
     B.exhaustive = not T
     B.bound = (f"EXHAUSTIVE: all families (multisets) of 1..3 coolers out of {len(names)} named pixel tables over 3 bins (<=3 pixels each: "
-               f"empty, diagonal, full row, last row, middle row{', same support, last column' if T else ''}) x mergebuf {bufs}; "
+               f"empty, diagonal, full row, last row, middle row, same support as diagonal{', last column' if T else ''}) x mergebuf {bufs}; "
                f"{'all' if T else '5'} families on a variable-width table and {'all' if T else '5'} square-storage families; all input orders of "
                f"{len(order_fams)} three-cooler families + a mixed-dtype (int8/int16/int32) family; 6 column-set/aggregate choices (sum/max/min, "
                f"count+float column); nested merges (a+b)+c, a+(b+c), merge(a,b,c) for {len(triples)} triples x sum/max/min; 10 kinds of "
